@@ -238,7 +238,8 @@ impl<T: MomTropFloat> SquareMatrix<T> {
                 println!("error: {:?}", error);
             }
 
-            if error > error.from_f64(tolerance) {
+            // written so that a NaN error is reported as unstable as well
+            if !(error <= error.from_f64(tolerance)) {
                 if settings.print_debug_info {
                     println!("Inversion unstable");
                 }
